@@ -158,3 +158,52 @@ acc_given!(u7_taiko_genstate_acc_300, true, false);
 //@ bound: loop-free arm; accuracy any value in [0,1]
 //@ clause: taiko generate_state with accuracy and n100 given: C12 clauses (1)-(6)
 acc_given!(u7_taiko_genstate_acc_100, false, true);
+
+// ---- accuracy search arm (no n300 / n100 given): C12 clauses + C13 optimality against a symbolic competitor ---------
+
+fn acc_search(cap: u32) {
+    let mut a = TaikoDifficultyAttributes::default();
+    a.max_combo = kani::any();
+    kani::assume(a.max_combo <= cap);
+    let acc = any_acc();
+    let mut b = any_builder(&a, Some(acc), Some(false), Some(false));
+    let pre = b.clone();
+    let s = match b.generate_state() {
+        Ok(s) => s,
+        Err(_) => {
+            assert!(false, "C12 generate_state on attributes cannot fail");
+            return;
+        }
+    };
+    post(&pre, &a, &s, &b);
+    // C13: the given number of misses, and no other split of the remaining hits is closer to the requested accuracy
+    let passed = pre.difficulty.get_passed_objects();
+    let n = if (a.max_combo as usize) < passed { a.max_combo } else { passed as u32 };
+    let room = n - s.misses;
+    assert!(s.n300 + s.n100 == room, "C13 all non-missed objects are distributed");
+    let x: u32 = kani::any();
+    kani::assume(x <= room);
+    let chosen = (acc - accuracy(s.n300, s.n100, s.misses)).abs();
+    let other = (acc - accuracy(x, room - x, s.misses)).abs();
+    assert!(chosen <= other, "C13 generated taiko hit results are at least as close to the requested accuracy as any other distribution");
+}
+
+//@ obl: id=U7.taiko.genstate.acc_search.n6 harness=u7_taiko_genstate_acc_search_n6 props=C12,C13 tier=quick kind=bounded budget=900
+//@ fns: TaikoPerformance::generate_state (accuracy search arm), accuracy (taiko::performance)
+//@ bound: bounded: max_combo <= 6; accuracy any value in [0,1]; misses / combo / passed_objects any u32; the search loop (floor..=ceil) is closed by unwind 5, certified by the unwinding assertion; the competitor distribution is symbolic (no enumeration)
+//@ clause: taiko generate_state with accuracy and no hit results: C12 clauses (1)-(4),(6); C13: misses as given, n300'+n100' == remaining objects, and |acc - accuracy(state')| <= |acc - accuracy(x, remaining-x, misses)| for EVERY x
+#[kani::proof]
+#[kani::unwind(5)]
+fn u7_taiko_genstate_acc_search_n6() {
+    acc_search(6);
+}
+
+//@ obl: id=U7.taiko.genstate.acc_search.n12 harness=u7_taiko_genstate_acc_search_n12 props=C12,C13 tier=thorough kind=bounded budget=3000
+//@ fns: TaikoPerformance::generate_state (accuracy search arm)
+//@ bound: bounded: max_combo <= 12; otherwise as U7.taiko.genstate.acc_search.n6
+//@ clause: as U7.taiko.genstate.acc_search.n6
+#[kani::proof]
+#[kani::unwind(5)]
+fn u7_taiko_genstate_acc_search_n12() {
+    acc_search(12);
+}
